@@ -89,11 +89,13 @@ class Spec:
         self.body_filter = kw.get("body_filter")
         self.predeclare = list(kw.get("predeclare", []))      # [(lean var, lean init text)]: variables first assigned inside branches
         self.try_passthrough = kw.get("try_passthrough", False)
+        self.try_handlers = kw.get("try_handlers", False)       # translate `try: <binds> except E: <handler>`: an error of a bound call runs the handler
         self.raise_map = dict(kw.get("raise_map", {}))          # {distinctive substring of the raise statement: lean error value}
         self.error_type = kw.get("error_type")                  # lean type of the error values: result becomes `Except error_type _`
         self.fuel_error = kw.get("fuel_error")                  # error value a `while` leaves with when the fuel runs out (Except mode)
         self.bind_map = dict(kw.get("bind_map", {}))            # {unparse(stmt): (lean pattern, lean call returning Except)}: error is passed on
-        self.drop_calls = list(kw.get("drop_calls", []))        # statements `f(...)` with `f` in this list are dropped (logging)
+        self.drop_calls = list(kw.get("drop_calls", []))
+        self.skip_prefixes = list(kw.get("skip_prefixes", []))  # statements whose text starts with one of these are dropped (pinned by prefix only)        # statements `f(...)` with `f` in this list are dropped (logging)
         self.doc = kw.get("doc", "")
         for n, t in self.params:
             self.types.setdefault(n, t)
@@ -142,6 +144,8 @@ def _assigned(stmts, spec):
     def walk(ss):
         for s in ss:
             u = ast.unparse(s)
+            if any(u.startswith(pfx) for pfx in spec.skip_prefixes):
+                continue
             if u in spec.stmt_map:
                 for v, _ in spec.stmt_map[u]:
                     add(v)
@@ -184,7 +188,7 @@ def _assigned(stmts, spec):
 def _has_ctrl(stmts, kinds, spec):
     """does the block contain a control transfer of one of `kinds` at this loop level (Return: any level)"""
     for s in stmts:
-        if ast.unparse(s) in spec.stmt_map:
+        if ast.unparse(s) in spec.stmt_map or any(ast.unparse(s).startswith(pfx) for pfx in spec.skip_prefixes):
             continue
         if ast.unparse(s) in spec.bind_map:
             if "raise" in kinds:
@@ -333,6 +337,9 @@ class Translator:
             return []
         if isinstance(s, ast.Expr) and isinstance(s.value, ast.Call) and ast.unparse(s.value.func) in sp.drop_calls:
             return []
+        if any(u.startswith(pfx) for pfx in sp.skip_prefixes):
+            self.dropped.append(u.split("\n")[0][:80] + " ...")
+            return []
         if isinstance(s, ast.Assert) and sp.asserts == "drop":
             self.dropped.append(u[:100])
             return []
@@ -389,7 +396,7 @@ class Translator:
         if u in sp.bind_map:
             pat, call = sp.bind_map[u]
             vs = set(re.findall(r"[A-Za-z_][A-Za-z_0-9']*", pat))
-            return ["match %s with" % call, "| .error e__ => .error e__", "| .ok %s =>" % pat] + ind(self.block(rest, k, defined | vs))
+            return ["match %s with" % call, "| Except.error e__ => Except.error e__", "| Except.ok %s =>" % pat] + ind(self.block(rest, k, defined | vs))
         if u in sp.pop_map:
             x, stream = sp.pop_map[u]
             return ["match %s with" % stream, "| [] => none", "| %s :: %s =>" % (x, stream)] + \
@@ -431,10 +438,10 @@ class Translator:
                 U("raise " + u[:60])
             for key, val in sp.raise_map.items():
                 if key in u:
-                    return [".error " + val]
+                    return ["Except.error " + val]
             U("raise statement not in the spec's raise_map: " + u[:80])
         if isinstance(s, ast.Assert) and sp.asserts == "except":
-            return ["if %s then" % self.expr(s.test)] + ind(self.block(rest, k, defined)) + ["else"] + ind([".error " + sp.assert_error])
+            return ["if %s then" % self.expr(s.test)] + ind(self.block(rest, k, defined)) + ["else"] + ind(["Except.error " + sp.assert_error])
         if isinstance(s, ast.Assert) and sp.asserts == "error":
             return ["if %s then" % self.expr(s.test)] + ind(self.block(rest, k, defined)) + ["else"] + \
                 ind(k.ret(None, defined, error=True))
@@ -465,6 +472,16 @@ class Translator:
                 all(len(h.body) == 1 and isinstance(h.body[-1], ast.Raise) or (len(h.body) == 2 and isinstance(h.body[-1], ast.Raise)) for h in s.handlers):
             self.dropped.append("except-handlers that only re-raise: " + ", ".join(ast.unparse(h.type) if h.type else "bare" for h in s.handlers))
             return self.block(list(s.body) + rest, k, defined)
+        if isinstance(s, ast.Try) and sp.try_handlers and sp.except_mode and len(s.handlers) == 1 and not s.orelse and not s.finalbody:
+            # an error raised by a call bound in the body (bind_map) is caught: the handler runs, then control continues after the try
+            vs = [v for v in _assigned(list(s.body), sp)]
+            tup = self.tuple_of(vs) if vs else "()"
+            body_lines = self.block(list(s.body), K(lambda d: ["Except.ok " + tup], None), set(defined))
+            handler_lines = self.block(list(s.handlers[0].body) + rest, k, set(defined))
+            rest_lines = self.block(rest, k, set(defined) | set(vs))
+            head = ["match (" + body_lines[0]] + body_lines[1:]
+            head[-1] = head[-1] + ") with"
+            return head + ["| Except.error _ =>"] + ind(handler_lines) + ["| Except.ok %s =>" % tup] + ind(rest_lines)
         if isinstance(s, ast.While):
             return self.while_loop(s, rest, k, defined)
         if isinstance(s, ast.For):
@@ -571,8 +588,8 @@ class Translator:
         exc = sp.except_mode
         if exc and not sp.fuel_error:
             U("while in a function that raises: the spec must give fuel_error")
-        OK = ".ok " if exc else "some "
-        FAIL = (".error " + sp.fuel_error) if exc else "none"
+        OK = "Except.ok " if exc else "some "
+        FAIL = ("Except.error " + sp.fuel_error) if exc else "none"
         kb = K(again, None, brk=lambda d: [OK + st_tuple], cont=again)
         call_holder["call"] = "%s __INV__ fuel %s" % (aux, " ".join(state))
         body = self.block(list(s.body), kb, set(defined))
@@ -590,7 +607,7 @@ class Translator:
         self.aux.append(lines)
         after = self.block(rest, k, defined)
         if exc:
-            return ["match %s with" % call, "| .error e__ => .error e__", "| .ok %s =>" % st_tuple] + ind(after)
+            return ["match %s with" % call, "| Except.error e__ => Except.error e__", "| Except.ok %s =>" % st_tuple] + ind(after)
         return ["match %s with" % call, "| none => none", "| some %s =>" % st_tuple] + ind(after)
 
     def _ty(self, v):
@@ -628,7 +645,7 @@ class Translator:
         res_tuple = "(%s, true)" % st_tuple if err else st_tuple
         res_ty = "(%s × Bool)" % self.tuple_ty(state) if err else self.tuple_ty(state)
         if exc:
-            res_tuple = ".ok " + st_tuple
+            res_tuple = "Except.ok " + st_tuple
             res_ty = "Except %s (%s)" % (sp.error_type, self.tuple_ty(state))
 
         def again(d):
@@ -652,7 +669,7 @@ class Translator:
         after = self.block(rest, k, defined)
         call = ["%s%s %s %s" % (aux, inv_s, it, " ".join(state))]
         if exc:
-            return ["match %s with" % call[0], "| .error e__ => .error e__", "| .ok %s =>" % st_tuple] + ind(after)
+            return ["match %s with" % call[0], "| Except.error e__ => Except.error e__", "| Except.ok %s =>" % st_tuple] + ind(after)
         if err:
             return ["match %s with" % call[0], "| (%s, false) =>" % st_tuple] + ind(k.ret(None, defined, error=True)) + \
                 ["| (%s, true) =>" % st_tuple] + ind(after)
@@ -670,7 +687,7 @@ class Translator:
         if sp.except_mode:
             if sp.pop_map:
                 U("raise together with stream draws")
-            wrap = lambda t: ".ok " + t      # noqa: E731
+            wrap = lambda t: "Except.ok " + t      # noqa: E731
 
         def on_ret(e, d, error=False):
             if error:
